@@ -119,7 +119,7 @@ def gen_scene(rng, idx):
     n = [14, 13, 15]
     dev = [[4, 10], [3, 9], [4, 10]]
     objs = []
-    kinds = ["dipole", "plane", "gauss", "field", "plane", "dipole", "block", "plane"]
+    kinds = ["dipole", "plane", "gauss", "field", "plane", "dipole", "block", "plane"] + (["gmode"] if idx % 2 == 0 else [])
     # first three objects: the design-phase trigger (strictly inside on all axes), one per source kind
     for j, kind in enumerate(kinds):
         if j < 3 or rng.random() < 0.35:
@@ -132,7 +132,7 @@ def gen_scene(rng, idx):
             rels = [r if r not in ("cover", "equal", "partial_lo", "partial_hi") else "inside" for r in rels]
             box = [rel_interval(rng, dev[a][0], dev[a][1], n[a], rels[a], thick=1) for a in range(3)]
             objs.append({"kind": kind, "box": box, "pol": rng.randrange(3)})
-        elif kind in ("plane", "gauss"):
+        elif kind in ("plane", "gauss", "gmode"):
             ax = rng.randrange(3)
             box = []
             for a in range(3):
@@ -147,6 +147,10 @@ def gen_scene(rng, idx):
             tr = [a for a in range(3) if a != ax]
             ep = [0, 0, 0]
             ep[rng.choice(tr)] = 1
+            if kind == "gmode":      # keep the plane large enough for the mode profile
+                for a in tr:
+                    if box[a][1] - box[a][0] < 4:
+                        box[a] = [max(0, box[a][0] - 2), min(n[a], box[a][0] - 2 + 5)] if box[a][0] >= 2 else [box[a][0], box[a][0] + 5]
             objs.append({"kind": kind, "box": box, "epol": ep, "dir": rng.choice("+-")})
         else:
             box = [rel_interval(rng, dev[a][0], dev[a][1], n[a], rels[a]) for a in range(3)]
@@ -233,6 +237,12 @@ def predicate(case, out):
             kind = case["objects"][i]["kind"]
             return (f"stale-{kind}", f"{kind} '{name}' at {out['boxes'][name]} intersects device {devboxes} but after apply_params its state differs "
                                      f"(rel. {st:.3g}) from a set-up against the post-device materials; re-applied: {out['reapplied'][out['names'].index(name)]}")
+        st2 = (out.get("stale2") or {}).get(name, 0.0)
+        if st2 > 1e-9 and inter:
+            i = int(name[1:])
+            kind = case["objects"][i]["kind"]
+            return (f"stale-after-second-apply-{kind}", f"{kind} '{name}' at {out['boxes'][name]}: after a second apply_params on the returned containers its state "
+                                                        f"differs (rel. {st2:.3g}) from a set-up against the current materials")
     return None
 
 
